@@ -557,11 +557,81 @@ func init() {
 	register(&propertySpec{
 		ID:      "C04",
 		Explain: "Static fan-out rules for the event walk: every binding / action pair gets a child node on every iteration, each concurrently running action owns its bindings map, the goroutines' shared writes are under one mutex with a complete WaitGroup protocol, and nodes are complete only without error. Does not decide the variable environment seen by scripts, equality of tree / values / side effects, or which bindings the condition yields.",
-		Rules:   []ruleFn{ruleFanOwn, ruleFanSync, ruleFanEvery, ruleSetIfAbsent, ruleDispErr, ruleLoopAlias},
+		Rules:   []ruleFn{ruleFanOwn, ruleFanSync, ruleFanEvery, ruleSetIfAbsent, ruleDispErr, ruleLoopAlias, ruleThunkLazy, ruleValuesOwnDisp},
 	})
 	register(&propertySpec{
 		ID:      "C05",
 		Explain: "Static MOD (may-modify) analysis for the last clause of C05 only: neither the pattern, the data nor the caller's initial bindings are modified by matching. Soundness and completeness of matching itself live in the sheens dependency and quantify over data: not decided.",
-		Rules:   []ruleFn{ruleModPure, ruleISliceLen},
+		Rules:   []ruleFn{ruleModPure, ruleISliceLen, ruleCastFresh},
 	})
+}
+
+// CAST-FRESH (C05): cast never hands a container back as it came.
+func ruleCastFresh(w *World, r *Report) {
+	r.Rule("CAST-FRESH", "core.cast turns every container it recognises (core.Map, map[string]interface{}, []interface{}) into a newly built plain container: a return that hands back the input itself (or an alias of it) is reachable only with the successful type-assertion edges for those container types deleted, i.e. only for inputs that are not containers.  A container returned as it came keeps its Go type (the matcher only understands map[string]interface{} and []interface{}: an empty core.Map would match nothing and be an `unknown pattern type`) and is shared with the caller", 1)
+	fn := w.Func("core", "cast")
+	if len(fn.Params) == 0 {
+		undecided("CAST-FRESH: cast has no parameter")
+	}
+	p := fn.Params[0]
+	isContainer := func(t types.Type) bool {
+		switch t.Underlying().(type) {
+		case *types.Map, *types.Slice:
+			return true
+		}
+		return false
+	}
+	del := map[bedge]bool{}
+	n := 0
+	for _, b := range fn.Blocks {
+		if len(b.Instrs) == 0 {
+			continue
+		}
+		ifi, ok := b.Instrs[len(b.Instrs)-1].(*ssa.If)
+		if !ok {
+			continue
+		}
+		ct, ok := decodeIf(ifi)
+		if !ok {
+			continue
+		}
+		ex, ok := ct.V.(*ssa.Extract)
+		if !ok || ex.Index != 1 {
+			continue
+		}
+		ta, ok := ex.Tuple.(*ssa.TypeAssert)
+		if !ok || !rootsAtDeep(ta.X, p, 0) || !isContainer(ta.AssertedType) {
+			continue
+		}
+		n++
+		if ct.TrueWhen == "true" {
+			del[bedge{b, 0}] = true
+		} else if ct.TrueWhen == "false" {
+			del[bedge{b, 1}] = true
+		}
+	}
+	key := "fn=" + fname(fn)
+	if n == 0 {
+		r.exempt("CAST-FRESH", key, w.Pos(fn.Pos()), "cast does not dispatch on container types by comma-ok assertions: shape not recognised, not decided")
+		return
+	}
+	live := blocksReachable(fn, edgeFilterOf(del))
+	bad := false
+	allInstrs(fn, func(in ssa.Instruction) {
+		ret, ok := in.(*ssa.Return)
+		if !ok || len(ret.Results) == 0 || bad {
+			return
+		}
+		v := ret.Results[0]
+		if !rootsAtDeep(v, p, 0) {
+			return
+		}
+		if !live[in.Block()] {
+			r.violation("CAST-FRESH", key, w.PosOf(in), "on an arm that is taken only for a container, cast returns its input (or an alias of it) instead of a newly built container")
+			bad = true
+		}
+	})
+	if !bad {
+		r.ok("CAST-FRESH", key, w.Pos(fn.Pos()), itoa(n)+" container assertions; the input is returned only for non-containers")
+	}
 }
